@@ -2,6 +2,7 @@ package main
 
 import (
 	"fmt"
+	"regexp"
 	"os"
 	"go/token"
 	"go/types"
@@ -310,6 +311,16 @@ func (fv *FuncVC) mergeVals(vs []Val, conds []string, prefix string, gt types.Ty
 		tv := fv.asTerm(v, gt)
 		fv.assert(smtImp(conds[i], app("=", t.S, tv.S)))
 	}
+	// a merged sequence (or a sequence field of a merged struct) inherits the prefix/content
+	// facts of its incoming values: register the pairs so that lemma instances exist for it too
+	fv.mergeWidth = len(vs)
+	for _, v := range vs {
+		if v.LV != nil {
+			continue
+		}
+		fv.inheritSeqFacts(t, v.T, gt, 0)
+	}
+	fv.mergeWidth = 0
 	return Val{T: t}
 }
 
@@ -336,6 +347,39 @@ func (fv *FuncVC) mergeTerm(ts []Term, conds []string, prefix string, arr bool) 
 	}
 	for i, x := range ts {
 		fv.assert(smtImp(conds[i], app("=", t.S, x.S)))
+	}
+	fv.mergeWidth = len(ts)
+	defer func() { fv.mergeWidth = 0 }()
+	if !arr {
+		for _, x := range ts {
+			fv.inheritSeqFacts(t, x, x.Go, 0)
+		}
+	} else if k := ts[0].Sort.Kind; k == KBytes || k == KSlice {
+		// heap field holding sequences: the merged field value at each recently written
+		// object inherits the facts known about the value written on that branch
+		for _, x := range ts {
+			// objects about which something is known in the incoming heap
+			pre := "(select " + x.S + " "
+			seenRef := map[string]bool{}
+			for _, q := range append([]pfxPair{}, fv.pfxPairs...) {
+				if strings.HasPrefix(q.a.S, pre) && strings.HasSuffix(q.a.S, ")") {
+					ref := q.a.S[len(pre) : len(q.a.S)-1]
+					if !seenRef[ref] {
+						seenRef[ref] = true
+						fv.inheritSeqFacts(Term{S: app("select", t.S, ref), Sort: ts[0].Sort}, Term{S: q.a.S, Sort: ts[0].Sort}, nil, 0)
+					}
+				}
+			}
+			cur := x.S
+			for depth := 0; depth < 4 && strings.HasPrefix(cur, "(store "); depth++ {
+				parts := splitTop(cur[7 : len(cur)-1])
+				if len(parts) != 3 {
+					break
+				}
+				fv.inheritSeqFacts(Term{S: app("select", t.S, parts[1]), Sort: ts[0].Sort}, Term{S: parts[2], Sort: ts[0].Sort}, nil, 0)
+				cur = parts[0]
+			}
+		}
 	}
 	return t
 }
@@ -693,8 +737,10 @@ func (fv *FuncVC) fieldAddr(in *ssa.FieldAddr) {
 	x := fv.operand(in.X)
 	st := in.X.Type().Underlying().(*types.Pointer).Elem()
 	if opaqueStruct(st) {
-		// address of a field of a library struct: opaque
-		fv.vals[in] = Val{T: fv.fresh("opaqueaddr", SRef)}
+		// address of a field of a library struct: opaque, but a valid address
+		oa := fv.fresh("opaqueaddr", SRef)
+		fv.assert(app(">", oa.S, "0"))
+		fv.vals[in] = Val{T: oa}
 		return
 	}
 	si := fv.structInfoOf(st)
@@ -848,6 +894,9 @@ func (fv *FuncVC) sliceInstr(in *ssa.Slice) {
 	n := fv.fresh("slice", r.Sort)
 	n.Go = in.Type()
 	fv.assert(app("=", n.S, r.S))
+	if sameSort(n.Sort, xt.Sort) {
+		fv.assert(smtImp(app("=", lo, fv.ilit(0)), fv.pfx(xt, n)))
+	}
 	fv.vals[in] = Val{T: n}
 }
 
@@ -974,6 +1023,7 @@ func (fv *FuncVC) unop(in *ssa.UnOp) {
 			n.Go = in.Type()
 			fv.assert(app("=", n.S, t.S))
 			fv.assert(fv.wf(n, in.Type()))
+			fv.inheritSeqFacts(n, t, in.Type(), 0)
 			t = n
 		}
 		fv.vals[in] = Val{T: t}
@@ -1073,6 +1123,10 @@ func (fv *FuncVC) ret(in *ssa.Return) {
 		return
 	}
 	for _, e := range fv.C.Ensures {
+		if e.Assumed {
+			fv.trustedUse["assumed postcondition of "+fv.Name+": "+e.Src] = true
+			continue
+		}
 		t := env.evalBool(e.E, e)
 		cs := splitAnd(t)
 		for ci, c := range cs {
@@ -1099,4 +1153,46 @@ func (fv *FuncVC) namedElem(t Term) Term {
 	fv.assert(app("=", n.S, t.S))
 	fv.assert(fv.wf(n, t.Go))
 	return n
+}
+
+var reAnchor = regexp.MustCompile(`(^|[ (])p_|_L[0-9]+!|!0([ )]|$)|(^|[ (])ld!`)
+
+func (fv *FuncVC) inheritSeqFacts(dst, src Term, gt types.Type, depth int) {
+	switch dst.Sort.Kind {
+	case KBytes, KSlice:
+		// only facts relative to anchors (parameters, loop-carried values, the entry heap,
+		// loaded values) are carried across a merge: those are what invariants and
+		// postconditions talk about; carrying every intermediate pair grows quadratically
+		for _, q := range append([]pfxPair{}, fv.pfxPairs...) {
+			if q.a.S == src.S && sameSort(q.a.Sort, dst.Sort) && reAnchor.MatchString(q.b.S) {
+				fv.pfx(dst, q.b)
+			}
+		}
+		if depth >= 0 && fv.mergeWidth <= 4 {
+			n := 0
+			for _, f := range append([]sfxFact{}, fv.sfxFacts...) {
+				if f.a.S == src.S && sameSort(f.a.Sort, dst.Sort) && n < 8 {
+					fv.sfx(dst, f.n, f.b)
+					n++
+				}
+			}
+			fv.pfx(dst, src)
+		}
+	case KStruct:
+		if depth >= 3 || gt == nil {
+			return
+		}
+		si := fv.structInfoOf(gt)
+		if si == nil {
+			return
+		}
+		for i, f := range si.fields {
+			k := si.fsorts[i].Kind
+			if k != KBytes && k != KSlice && k != KStruct {
+				continue
+			}
+			sel := fmt.Sprintf("S_%s_%s", si.sort.Name, f.Name())
+			fv.inheritSeqFacts(Term{S: app(sel, dst.S), Sort: si.fsorts[i], Go: f.Type()}, Term{S: app(sel, src.S), Sort: si.fsorts[i], Go: f.Type()}, f.Type(), depth+1)
+		}
+	}
 }
